@@ -532,6 +532,30 @@ fn eval(name: &str, a: &[Value]) -> Value {
                 Err(e) => json!({"Err": e}),
             }
         }
+        // the real single-script executor: {"commands": [..], "skip": i32|null (every test case), "default_skip": i32|null (document defaults)}
+        "script_skip" => {
+            use scrut::executors::executor::Executor;
+            let w = &a[0];
+            let tests: Vec<scrut::testcase::TestCase> = w["commands"].as_array().unwrap().iter().enumerate().map(|(i, e)| {
+                let mut config = scrut::config::TestCaseConfig::default_cram();
+                config.skip_document_code = w["skip"].as_i64().map(|x| x as i32);
+                scrut::testcase::TestCase { title: "t".into(), shell_expression: str_arg(e), expectations: vec![], exit_code: None, line_number: i + 1, config }
+            }).collect();
+            let refs: Vec<&scrut::testcase::TestCase> = tests.iter().collect();
+            let tmp = std::env::temp_dir().join(format!("verif-skip-{}", std::process::id()));
+            let _ = std::fs::create_dir_all(&tmp);
+            let mut doc = scrut::config::DocumentConfig::default_cram();
+            doc.defaults.skip_document_code = w["default_skip"].as_i64().map(|x| x as i32);
+            let context = scrut::executors::context::ContextBuilder::default()
+                .work_directory(tmp.clone()).temp_directory(tmp.clone()).file(std::path::PathBuf::from("file.t")).config(doc).build().unwrap();
+            let res = scrut::executors::bash_script_executor::BashScriptExecutor::default().execute_all(&refs, &context);
+            let _ = std::fs::remove_dir_all(&tmp);
+            match res {
+                Ok(outs) => json!({"Ok": outs.iter().map(|o| format!("{:?}", o.exit_code)).collect::<Vec<_>>()}),
+                Err(scrut::executors::error::ExecutionError::Skipped(i)) => json!({"Err": format!("Skipped({})", i)}),
+                Err(e) => json!({"Err": format!("{:#}", e).chars().take(120).collect::<String>()}),
+            }
+        }
         // the real single-script (Cram) executor on a list of shell expressions: [[expr…], combined?] → per test stdout / stderr / status
         "script_execute_all" => {
             use scrut::executors::executor::Executor;
